@@ -64,6 +64,13 @@ type FnStat struct {
 }
 
 func newEngine(p *Program) *Engine {
+	e := newEngine0(p)
+	// references 1..1000 are the package-level variables: always allocated
+	e.ghostInit[allocName] = "(> $ 1000)"
+	return e
+}
+
+func newEngine0(p *Program) *Engine {
 	return &Engine{P: p, flatCache: map[types.Type][]Comp{}, tags: map[string]int{}, tagTypes: map[int]types.Type{},
 		trivial: map[string]int{}, contracts: map[string]*Contract{}, ifaceSpecs: map[string]*Contract{},
 		arrSorts: map[string]string{}, refArr: map[string]bool{}, ghostInit: map[string]string{}, strLits: map[string]int{}, funcIDs: map[string]int{},
@@ -315,6 +322,9 @@ func (st *State) loadPtr(p *Ptr, pos token.Pos) Val {
 			a := st.arr(nm, arrSort(c.Sort))
 			st.instantiateForArray(nm, p.Root)
 			t := sel(a, p.Root)
+			if kv, ok := st.known[nm+"\x00"+p.Root]; ok {
+				t = kv // the value this path itself stored there (no intervening write can alias it)
+			}
 			v.C = append(v.C, t)
 		}
 	case PElem:
@@ -353,7 +363,8 @@ func (st *State) storePtr(p *Ptr, v Val, pos token.Pos) {
 			name := heapName(e, p.RootT, p.Path+c.Path)
 			e.noteRef(name, c)
 			a := st.arr(name, arrSort(c.Sort))
-			st.setArr(name, arrSort(c.Sort), store(a, p.Root, v.C[i]))
+			st.setArrRaw(name, arrSort(c.Sort), store(a, p.Root, v.C[i]), false)
+			st.noteKnown(name, p.Root, v.C[i])
 		}
 	case PElem:
 		for i, c := range comps {
@@ -371,31 +382,50 @@ func (st *State) storePtr(p *Ptr, v Val, pos token.Pos) {
 
 const allocName = "G|alloc"
 
-// newRef allocates a fresh object reference.
+// Allocation is modelled by a bump counter (ghost Int "G|alloc" = the next free reference): objects are numbered
+// in allocation order, so "allocated in state s" is p < next_s and freshness is plain arithmetic. References
+// 1..1000 are package-level variables; interior references (el/fa terms) are negative.
 func (st *State) newRef(prefix string) string {
 	r := st.fresh(prefix, SInt)
 	a := st.alloc()
-	st.assume(fmt.Sprintf("(and (> %s 1000) (not (select %s %s)))", r, a, r))
-	st.setArr(allocName, "(Array Int Bool)", store(a, r, "true"))
+	st.assume(eq(r, a))
+	st.setArr(allocName, "Int", fmt.Sprintf("(+ %s 1)", a))
 	st.nonnil[r] = true
 	st.private[r] = true
+	st.allocConst[r] = true
 	return r
 }
 
-// bumpAlloc models allocation by code we do not see: the allocated set may grow.
+// noteKnown remembers the value just stored at (array, index) so that a later load on this path returns the very
+// term (smaller formulas). Entries of the same array at other indices survive only if both indices are distinct
+// objects allocated by this path (which cannot alias).
+func (st *State) noteKnown(name, idx, val string) {
+	prefix := name + "\x00"
+	for k := range st.known {
+		if strings.HasPrefix(k, prefix) {
+			other := k[len(prefix):]
+			if other != idx && st.allocConst[other] && st.allocConst[idx] {
+				continue
+			}
+			delete(st.known, k)
+		}
+	}
+	st.known[prefix+idx] = val
+}
+
+// bumpAlloc models allocation by code we do not see: the counter may grow.
 func (st *State) bumpAlloc() {
 	old := st.alloc()
 	st.havoc(allocName)
 	nw := st.alloc()
-	st.assume(fmt.Sprintf("(forall ((x Int)) (! (=> (select %s x) (select %s x)) :pattern ((select %s x)) :pattern ((select %s x))))", old, nw, old, nw))
+	st.assume(fmt.Sprintf("(>= %s %s)", nw, old))
 	st.havocs[len(st.havocs)-1].alloc = nw
-	// shortcut of the monotonicity chain: everything allocated at function entry is still allocated
-	if len(st.frames) > 0 && st.frames[0].old != nil {
-		entry := st.arrIn(st.frames[0].old, allocName, "(Array Int Bool)")
-		if entry != old {
-			st.assume(fmt.Sprintf("(forall ((x Int)) (! (=> (select %s x) (select %s x)) :pattern ((select %s x))))", entry, nw, nw))
-		}
-	}
+}
+
+// allocatedIn: reference term p denotes nil, a package variable, an interior reference, or an object allocated
+// before the counter value next.
+func allocatedIn(p, next string) string {
+	return fmt.Sprintf("(< %s %s)", p, next)
 }
 
 func compIsRef(c Comp) bool {
@@ -425,7 +455,7 @@ func (st *State) assumeAllocated(v Val) {
 			if a == "" {
 				a = st.alloc()
 			}
-			st.assume(fmt.Sprintf("(or (<= %s 1000) (select %s %s))", v.C[i], a, v.C[i]))
+			st.assume(allocatedIn(v.C[i], a))
 			if _, ok := st.birth[v.C[i]]; !ok {
 				st.birth[v.C[i]] = a
 			}
@@ -437,7 +467,7 @@ func (st *State) assumeAllocated(v Val) {
 // no later than `from` itself.
 func (st *State) assumeDerived(from, derived string) {
 	if al, ok := st.birth[from]; ok {
-		st.assume(fmt.Sprintf("(or (<= %s 1000) (select %s %s))", derived, al, derived))
+		st.assume(allocatedIn(derived, al))
 		if _, ok := st.birth[derived]; !ok {
 			st.birth[derived] = al
 		}
